@@ -178,6 +178,8 @@ func genCase(t *rapid.T) Case {
 		for i := 0; i < n; i++ {
 			burst = append(burst, Op{K: "create", A: stringParamIndex(), B: 2}, Op{K: "param", A: 0, B: 1, S: fmt.Sprintf("v%d", i)}, Op{K: "burstconnect"})
 		}
+		// ... and renders it through a text artifact, so a scrambled order is visible in the artifact too
+		burst = append(burst, Op{K: "create", S: "TextNodeData"}, Op{K: "bursttext"})
 		pos := rapid.IntRange(0, len(ops)).Draw(t, "burstPos")
 		ops = append(append(append([]Op{}, ops[:pos]...), burst...), ops[pos:]...)
 	}
@@ -440,6 +442,20 @@ func runCase(c Case, o *vh.Obs) *vh.Failure {
 			if len(to.arrConn["Values"]) > maxArr {
 				maxArr = len(to.arrConn["Values"])
 			}
+		case "bursttext":
+			if lastBurstJoin == nil || byID[lastBurstJoin.id] == nil || len(ns) == 0 || !strings.Contains(ns[len(ns)-1].typ, "TextNodeData") {
+				continue
+			}
+			text := ns[len(ns)-1]
+			inst.ConnectNodes(lastBurstJoin.id, "Out", text.id, "In")
+			text.conn["In"] = lastBurstJoin.id
+			inst.SetNodeAsProducer(text.id, "joined.txt")
+			for f, id := range producers {
+				if id == text.id {
+					delete(producers, f)
+				}
+			}
+			producers["joined.txt"] = text.id
 		case "connect":
 			var tos []*nd
 			for _, n := range ns {
